@@ -814,12 +814,11 @@ class PauliStringLinear(PauliString):
         """
         identity_coeff: complex = 0.0j  # Initialize the coefficient of the Identity operator
 
-        # Loop through the terms to find the coefficient of the Identity string
-        for coeff, pauli in self:
+        # Sum the coefficients of all Identity terms (the list need not be simplified)
+        for coeff, pauli in self.combinations:
             # The PauliString class should have an `is_identity()` method
             if pauli.is_identity():
-                identity_coeff = coeff
-                break  # Found it, no need to look further
+                identity_coeff += coeff
 
         # If there was no identity term, its coefficient is zero, so trace is zero.
         if identity_coeff == 0:
